@@ -310,8 +310,8 @@ def obligations(tier):
     obs = []
     for sep in ("comma", "tab"):
         if T:
-            obs.append(Ob(f"roundtrip/{sep}/1x2/len3", __name__, "mk", {"nrows": 1, "sep_name": sep, "maxlen": 3}, timeout=7200, group="csv", optional=True))
-            obs.append(Ob(f"roundtrip/{sep}/2x2/len2", __name__, "mk", {"nrows": 2, "sep_name": sep, "maxlen": 2}, timeout=7200, group="csv", optional=True))
+            obs.append(Ob(f"roundtrip/{sep}/1x2/len3", __name__, "mk", {"nrows": 1, "sep_name": sep, "maxlen": 3}, timeout=2400, group="csv", optional=True))
+            obs.append(Ob(f"roundtrip/{sep}/2x2/len2", __name__, "mk", {"nrows": 2, "sep_name": sep, "maxlen": 2}, timeout=2400, group="csv", optional=True))
         if T:
             obs.append(Ob(f"roundtrip/{sep}/1x2/len2", __name__, "mk", {"nrows": 1, "sep_name": sep, "maxlen": 2}, timeout=3600, group="csv"))
         obs.append(Ob(f"roundtrip/{sep}/1x2/len1", __name__, "mk", {"nrows": 1, "sep_name": sep, "maxlen": 1}, timeout=900, group="csv"))
